@@ -58,6 +58,7 @@ func (s *State) clone() *State {
 }
 
 type Obl struct {
+	Tagged  bool // carries clause-level properties (kept when a function is verified for a lock discipline only)
 	Name    string
 	Func    string
 	Kind    string
@@ -114,6 +115,15 @@ type Frame struct {
 	loopLets  map[*ssa.BasicBlock]map[string]Val
 	inDefer   bool
 	panicVal  string
+	guarded   map[ssa.Value]*guard // values loaded from a guarded package variable (and ranges over them)
+}
+
+// guard: a package variable that may only be accessed while holding a mutex (reads: read or write lock; writes and
+// map updates: write lock).
+type guard struct {
+	g, mu *ssa.Global
+	alt   *ssa.Global // readers may hold this exclusive lock instead; writers must hold both
+	props []string
 }
 
 type loopInfo struct {
@@ -138,6 +148,10 @@ type Engine struct {
 	curProps        []string
 	degraded        []string
 	abstr           map[string]int
+	muxIDs          map[string]int
+	lockOrders      [][2]*ssa.Global // (outer, inner) pairs of "lockorder" declarations
+	lockOrderProps  []string
+	guards          map[*ssa.Global]*guard
 	sharedAddrs     []*Addr         // the locations declared shared (thread-modular mode)
 	loopGhostWriter bool            // the loop being cut contains a call whose contract writes ghost state
 	initialPkgs     map[string]bool // import paths of the packages loaded for verification
